@@ -270,12 +270,12 @@ def c05(prop, tier):
 # ---------------------------------------------------------------------------
 # HeadsCache: cached heads against the log in memory, over several runs of one replica (C05, C15, C01)
 
-def hc_cfg(name, keep, stops=2, nlocal=2, invs='Durable NoPhantom FullIsFull'):
+def hc_cfg(name, keep, stops=2, nlocal=2, invs='Durable NoPhantom FullIsFull', readfirst=True):
     return (name, '''SPECIFICATION Spec
-CONSTANTS NLocal = %d RemoteIds <- RIds RemotePar <- RPar RemoteClock <- RClock RemoteWriter <- RWriter MaxStops = %d KeepCachedHeads = %s
+CONSTANTS NLocal = %d RemoteIds <- RIds RemotePar <- RPar RemoteClock <- RClock RemoteWriter <- RWriter MaxStops = %d KeepCachedHeads = %s ReadFirst = %s
 INVARIANTS %s
 CHECK_DEADLOCK FALSE
-''' % (nlocal, stops, 'TRUE' if keep else 'FALSE', invs))
+''' % (nlocal, stops, 'TRUE' if keep else 'FALSE', 'TRUE' if readfirst else 'FALSE', invs))
 
 
 HC_KINDS = {
@@ -301,6 +301,13 @@ def run_headscache(ck, prop, tier, n_sim):
             mutants.append('replaced-heads-counterexample-%d' % stops)
         else:
             ck.inconclusive.append('mutant specification (HeadsCache, replaced heads, %d stops) not refuted by TLC: vacuity guard failed' % stops)
+    m = vlib.tlc_check('MCHeadsCache.tla', hc_cfg('HeadsCache.mutantR.cfg', True, 1, invs='Durable', readfirst=False), '%s-hc-mutantR' % prop)
+    ck.add_tlc(m, 'HeadsCache with the cached heads read after the append (mutant specification: a Load between the two steps of a write)')
+    if m.get('violated') == 'Durable' and m.get('trace'):
+        bs.append({'id': 'read-after-append-counterexample', 'steps': m['trace']})
+        mutants.append('read-after-append-counterexample')
+    else:
+        ck.inconclusive.append('mutant specification (HeadsCache, read after append) not refuted by TLC: vacuity guard failed')
     sims, _ = vlib.tlc_simulate('MCHeadsCache.tla', hc_cfg('HeadsCache.sim.cfg', True, invs='Durable'), prop + '-hc-sim', n_sim, 14, SEED * 11 + 3)
     bs += sims
     for b in bs:
@@ -312,7 +319,7 @@ def run_headscache(ck, prop, tier, n_sim):
                 unloaded = True
             elif a == 'LoadFull':
                 unloaded = False
-            elif a in ('Replicate', 'Write') and unloaded:
+            elif a in ('Replicate', 'Write', 'WriteEnd') and unloaded:
                 nt = True
         if nt:
             ck.distinct.add(vlib.beh_signature(b))
@@ -486,6 +493,21 @@ def loadpath_model(ck, prop):
     if m.get('violated') != 'FullLoadsEverything':
         ck.inconclusive.append('mutant specification (LoadPath, Join only) not refuted by TLC: vacuity guard failed')
 
+def replicator_liveness(ck, prop, dag, cancels, mutant=False):
+    """Replicator.tla under weak fairness of workers, requests and the main loop: everything reachable from the final request is
+    eventually and for good in the log (the safety runs say 'at rest'; this says that rest is reached)."""
+    name, cfg = rp_cfg('Replicator.%s.live.cfg' % dag, 'FairSpec', dag, 2, cancels, False, invs='SemOK', bounded=not mutant)
+    cfg = cfg.replace('CHECK_DEADLOCK FALSE', 'PROPERTIES Eventually\nCHECK_DEADLOCK FALSE')
+    r = vlib.tlc_check('MCReplicator.tla', (name, cfg), '%s-rp-live-%s%s' % (prop, dag, '-mutant' if mutant else ''), timeout=1500)
+    if mutant:
+        ck.add_tlc(r, 'Replicator liveness with unbounded fetches (mutant specification) dag %s' % dag)
+        if 'Temporal property' not in (r.get('error') or '') and not r.get('violated'):
+            ck.inconclusive.append('mutant specification (unbounded fetches, liveness, dag %s) not refuted by TLC: vacuity guard failed' % dag)
+    else:
+        ck.require_model_ok(r, 'Replicator liveness (FairSpec => Eventually) dag %s, %d cancels' % (dag, cancels))
+    log('  TLC Replicator liveness %s%s: %d distinct, %.0fs' % (dag, ' (mutant, refuted)' if mutant else '', r['distinct'], r['wall']))
+
+
 def c11(prop, tier):
     ck = Check(prop, tier)
     thorough = tier == 'thorough'
@@ -493,6 +515,10 @@ def c11(prop, tier):
                'before and after the fetch; Cancel at any step) forced on a real store, then run to rest and the final uncancelled '
                'request issued again; non-trivial = behaviour containing a Cancel')
     loadpath_model(ck, prop)
+    replicator_liveness(ck, prop, 'A', 1)
+    if thorough:
+        replicator_liveness(ck, prop, 'I', 1)
+        replicator_liveness(ck, prop, 'I', 1, mutant=True)
     run_replicator(ck, prop, tier, 'A', 2, 100 if thorough else 16, 40)
     # a replica that has been restarted: requests for heads it holds in its cache arrive before, while and after its own Load (DAG F)
     run_replicator(ck, prop, tier, 'F', 1, 60 if thorough else 10, 40)
